@@ -2,6 +2,7 @@ import HgVerif.Model.NestShape
 import HgVerif.Model.Capture
 import HgVerif.Model.BoundaryKey
 import HgVerif.Model.NestRef
+import HgVerif.Model.BoundaryPath
 import HgVerif.Driver.Proto
 /-! Model driver for the structured-boundary stream of C09: same line protocol as `harness/drv_nestshape.cpp`.
     The body vocabulary (rules, gate, timer) is interpreted here into the per-cycle writes of the body; the forwarding
@@ -14,6 +15,26 @@ structure Rule where
   val : Char := 'k'
   vj : Int := 0
 
+/-- the tree of a `P<tree>@<views>` argument: schema + how the outer argument is assembled -/
+inductive PT where
+  | leaf                                              -- `s`: a scalar writer
+  | node (kind : Char) (peered : Bool) (kids : List PT)   -- `l[..]` / `b[..]` structural, `L[..]` / `B[..]` one peered writer
+
+partial def PT.leaves : PT → Nat
+  | .leaf => 1
+  | .node _ _ ks => (ks.map PT.leaves).foldl (· + ·) 0
+
+partial def PT.sig : PT → String
+  | .leaf => "s"
+  | .node k _ ks => String.singleton k ++ "[" ++ String.join (ks.map PT.sig) ++ "]"
+
+partial def PT.at? : PT → List Nat → Option PT
+  | t, [] => some t
+  | .leaf, _ :: _ => none
+  | .node _ _ ks, i :: r => match ks[i]? with
+    | some k => k.at? r
+    | none => none
+
 structure Def where
   res : String
   args : String
@@ -24,6 +45,9 @@ structure Def where
   rules : List Rule
   chans : Nat           -- history columns (channels of the outer writers)
   bch : Nat             -- input channels of the body
+  ptree : Option PT := none              -- P<tree>@<views>: the structured parameter ..
+  pviews : List (List Nat) := []         -- .. and the projection paths of the body's views
+  gateN : Nat := 0                       -- P kind: the body channels of the first view (the gate)
 
 structure DS where
   d : Option Def := none
@@ -63,7 +87,7 @@ def pairs : List String :=
    "l2:tli", "l2:tle", "l2:ili", "l2:ile", "b2:tbi", "b2:tbe", "b2:ibi", "b2:ibe", "ts:rs"]
 
 def chanIdx (c : Char) (chans : Nat) : Option Nat :=
-  if c.isDigit && c.toNat - '0'.toNat < 3 && c.toNat - '0'.toNat < chans then some (c.toNat - '0'.toNat) else none
+  if c.isDigit && c.toNat - '0'.toNat < 8 && c.toNat - '0'.toNat < chans then some (c.toNat - '0'.toNat) else none
 
 def parseVal (chans : Nat) (r : Rule) : List Char → Option Rule
   | ['x', c] => (chanIdx c chans).map fun j => { r with val := 'x', vj := Int.ofNat j }
@@ -105,9 +129,86 @@ def passOk (res args : String) : Bool :=
   if isTwin args then res != "l3" && twinForm args != "t2" else
   (res == "ts" && (args.startsWith "s" || captured args)) || (res == "b2" && (args == "ab" || args == "bs")) || (res == "l2" && args == "al")
 
+/-! one structured parameter assembled to any depth (`P<tree>@<views>`) -/
+
+/-- recursive descent over the tree syntax; inside a peered structure only lower case is accepted -/
+partial def parsePT (inPeered : Bool) : List Char → Option (PT × List Char)
+  | 's' :: r => some (.leaf, r)
+  | c :: '[' :: r =>
+    let lc := c.toLower
+    if (lc != 'l' && lc != 'b') || (inPeered && c != lc) then none else
+    let peered := inPeered || c != lc
+    let rec kids (acc : List PT) (r : List Char) : Option (List PT × List Char) :=
+      match r with
+      | ']' :: r' => some (acc, r')
+      | [] => none
+      | _ => match parsePT peered r with
+        | some (k, r') => kids (acc ++ [k]) r'
+        | none => none
+    match kids [] r with
+    | some (ks, r') => if ks.isEmpty || ks.length > 3 then none else some (.node lc peered ks, r')
+    | none => none
+  | _ => none
+
+def pathSigs : List String :=
+  ["l[sss]", "b[ss]", "l[l[ss]l[ss]]", "b[l[ss]s]", "b[sl[ss]]", "l[b[ss]b[ss]b[ss]]", "b[l[sss]b[ss]s]",
+   "l[l[l[ss]l[ss]]l[l[ss]l[ss]]]", "b[l[b[ss]b[ss]]sl[sss]]", "b[b[l[sss]]l[l[s]l[s]]]"]
+
+def parseView (v : String) : Option (List Nat) :=
+  if v == "w" then some [] else
+  let cs := v.toList
+  if cs.isEmpty || cs.length % 2 == 0 then none else
+  let ok := (List.range cs.length).all fun k =>
+    let c := cs.getD k ' '
+    if k % 2 == 0 then c.isDigit && c.toNat - '0'.toNat ≤ 2 else c == '.'
+  if !ok then none else
+  some ((List.range cs.length).filterMap fun k => if k % 2 == 0 then some ((cs.getD k '0').toNat - '0'.toNat) else none)
+
+/-- the view lists one rule body node can consume -/
+def viewsOk (views : List (List Nat)) (sigs : List String) : Bool :=
+  let small := ["l[ss]", "b[ss]"]
+  if sigs.isEmpty || sigs.length > 3 then false else
+  if sigs.all (· == "s") then true else
+  match sigs, views with
+  | [a], [p] => a == "l[ss]" || a == "b[ss]" || a == "l[sss]" || p.isEmpty
+  | [a, b], _ => (small.contains a && b == "s") || (a == "s" && small.contains b)
+  | _, _ => false
+
+/-- (tree, views) -/
+def parsePArgs (a : String) : Option (PT × List (List Nat)) :=
+  match a.toList with
+  | 'P' :: rest =>
+    let tcs := rest.takeWhile (· != '@')
+    let vcs := (rest.dropWhile (· != '@')).drop 1
+    if tcs.length == rest.length || a.length < 4 then none else
+    match parsePT false tcs with
+    | some (t, []) =>
+      if !pathSigs.contains t.sig then none else
+      let vs := (String.ofList vcs).splitOn ","
+      let ps := vs.map parseView
+      if ps.any (·.isNone) then none else
+      let views := ps.filterMap id
+      let subs := views.map t.at?
+      if subs.any (·.isNone) then none else
+      if !viewsOk views ((subs.filterMap id).map PT.sig) then none else some (t, views)
+    | _ => none
+  | _ => none
+
 def parseDef (ws : List String) : Option Def :=
   match ws with
   | _ :: res :: args :: style :: timer :: rules =>
+    if args.startsWith "P" then
+      match parsePArgs args, parseTimer timer with
+      | some (t, views), some (tm, o, p) =>
+        let bch := ((views.filterMap t.at?).map PT.leaves).foldl (· + ·) 0
+        if res != "l3" || style != "node" || t.leaves > 8 || bch > 8 || rules.length != 3 then none else
+        let rs := rules.map (parseRule bch)
+        if rs.any (·.isNone) then none else
+        some { res := res, args := args, style := style, timer := tm, tOff := o, tPer := p, rules := rs.filterMap id,
+               chans := t.leaves, bch := bch, ptree := some t, pviews := views,
+               gateN := ((views.head?.bind t.at?).map PT.leaves).getD 0 }
+      | _, _ => none
+    else
     let nl := leavesOf res
     let ch := chansOf args
     if nl == 0 || ch == 0 || !pairs.contains (res ++ ":" ++ args) then none else
@@ -159,8 +260,60 @@ def writerBase (args : String) (n : Nat) : Nat :=
 open HgVerif.Capture in
 def portColumn (args : String) (p : PortId) : Nat := writerBase args p.node + p.path.headD 0
 
+/-! `P<tree>@<views>`: the outer argument as a source tree of `HgVerif.BoundaryPath` (a writer node is named by its
+    first history column); which column every body channel reads is decided by the model
+    (`HgVerif.BoundaryPath.bodyInput`: mirror the parameter `D` levels down with `boundaryShape`, project the view,
+    bind level by level outwards). -/
+instance : Inhabited HgVerif.BoundaryPath.Src := ⟨.null⟩
+
+open HgVerif.BoundaryPath in
+partial def ptSrc : PT → Nat → Src × Nat
+  | .leaf, base => (.peered base [], base + 1)
+  | .node k true ks, base => (.peered base [], base + (PT.node k true ks).leaves)
+  | .node _ false ks, base =>
+    let r := ks.foldl (fun (acc : List Src × Nat) k => let x := ptSrc k acc.2; (acc.1 ++ [x.1], x.2)) ([], base)
+    (.struct (Forest.ofList r.1), r.2)
+
+/-- the writers: (first column, output schema) -/
+partial def ptWriters : PT → Nat → List (Nat × PT) × Nat
+  | .leaf, base => ([(base, .leaf)], base + 1)
+  | .node k true ks, base => ([(base, .node k true ks)], base + (PT.node k true ks).leaves)
+  | .node _ false ks, base =>
+    ks.foldl (fun (acc : List (Nat × PT) × Nat) k => let x := ptWriters k acc.2; (acc.1 ++ x.1, x.2)) ([], base)
+
+/-- offset of the scalar leaf at `path` of a writer's output schema -/
+partial def ptOffset : PT → List Nat → Option Nat
+  | .leaf, [] => some 0
+  | .node _ _ ks, i :: r =>
+    match ks[i]? with
+    | some k => (ptOffset k r).map (· + ((ks.take i).map PT.leaves).foldl (· + ·) 0)
+    | none => none
+  | _, _ => none
+
+open HgVerif.BoundaryPath in
+/-- the history column of every scalar leaf of a bound body input of schema `sch` -/
+partial def leafCols (writers : List (Nat × PT)) (r : Src) : PT → List (Option Nat)
+  | .leaf =>
+    match r with
+    | .peered n p => [((writers.find? (·.1 == n)).bind fun w => ptOffset w.2 p).map (· + n)]
+    | _ => [none]
+  | .node _ _ ks => ((List.range ks.length).map fun i => leafCols writers (project r i) (ks.getD i .leaf)).flatten
+
+open HgVerif.BoundaryPath in
+def pathRow (t : PT) (views : List (List Nat)) (D : Nat) (row : List (Option Int)) : List (Option Int) :=
+  let o := (ptSrc t 0).1
+  let writers := (ptWriters t 0).1
+  let cols := (views.map fun q => leafCols writers (bodyInput o 0 D q) ((t.at? q).getD .leaf)).flatten
+  cols.map fun c => match c with
+    | some k => (row[k]?).getD none
+    | none => none
+
 /-- the row the body sees (one entry per body input) from the row of history columns, at nesting depth `D` -/
-def bodyRow (args : String) (D : Nat) (row : List (Option Int)) : List (Option Int) :=
+def bodyRow (df : Def) (D : Nat) (row : List (Option Int)) : List (Option Int) :=
+  let args := df.args
+  match df.ptree with
+  | some t => pathRow t df.pviews D row
+  | none =>
   let ports := capPorts args
   if ports.isEmpty then row else
   let levels := List.replicate D ports
@@ -197,6 +350,7 @@ def bodyStep (df : Def) (t : Nat) (row : List (Option Int)) (s : BS) (forced : B
     ({ s with vals := vals }, anyTick, (List.range nl).map fun i => nth row (base + i) none) else
   let due := s.armed == some t
   let gate := if ["ab", "al", "bs"].contains df.args then (nth vals 0 none).isSome || (nth vals 1 none).isSome
+              else if df.gateN > 0 then (List.range df.gateN).any fun j => (nth vals j none).isSome
               else (nth vals 0 none).isSome
   -- `forced`: the body node was scheduled by the sampled-initialisation step of a late start although nothing ticked
   let ev := (anyTick || due || forced) && gate
@@ -348,7 +502,7 @@ def runMode (df : Def) (hist : List (List (Option Int))) (D : Nat) (startAt : Op
       if row.any (·.isSome) then cycs := cycs ++ [toString t]
       t := t + 1
       continue
-    let mut brow0 := bodyRow df.args D row
+    let mut brow0 := bodyRow df D row
     if twins then
       let r := twinStep plan t row pend
       pend := r.2
@@ -359,8 +513,11 @@ def runMode (df : Def) (hist : List (List (Option Int))) (D : Nat) (startAt : Op
       | none => nth bs.vals j none
     let forced := late && valsNow.any (·.isSome)
     let brow := if late && D == 0 then valsNow else brow0
-    let (bs', isCyc0, writes) := bodyStep df t brow bs forced
+    let (bs', isCyc1, writes) := bodyStep df t brow bs forced
     bs := bs'
+    -- P kind: every history column is a leaf of the ONE argument: a tick the body does not read is still an engine
+    -- cycle (and, nested, an evaluation of the nested node)
+    let isCyc0 := isCyc1 || (df.ptree.isSome && row.any (·.isSome))
     let isCyc := isCyc0 && !unbound
     if (isCyc0 || late) && !isCyc0 then cycs := cycs ++ [toString t]
     if isCyc0 && unbound then cycs := cycs ++ [toString t]
